@@ -505,12 +505,10 @@ template <class... Ts>
 struct Io<std::tuple<Ts...>> {
   using V = std::tuple<Ts...>;
   static void ser(gr::SerializeBuffer& b, const V& v) {
-    bool anyNested = (IsTuple<Ts>::value || ...);
     if constexpr ((IsTuple<Ts>::value || ...))
       serFlat(b, v);
     else
       std::apply([&](const auto&... xs) { gr::gSerialize(b, xs...); }, v); // one variadic call
-    (void)anyNested;
   }
   static void deser(gr::DeSerializeBuffer& b, V& w) { gr::gDeserialize(b, w); }
   static size_t sized(const V& v) {
